@@ -146,6 +146,7 @@ def real_render(case, di, env=None, names=None, how="render", async_fns=False, a
     if async_iters:
         data = {k: (_agen(v) if k.startswith("ag") and isinstance(v, list) else v) for k, v in data.items()}
     try:
+        data = jast.resolve_tplrefs(data, env)
         if case.get("tglobals"):
             t = env.get_template(case["main"], globals={k: jast.to_py(v, case["objs"], log, cache) for k, v in case["tglobals"].items()})
         else:
